@@ -415,7 +415,8 @@ pub fn match_instr(
                 defs,
                 ruledef_ref,
                 &mut walker,
-                true);
+                true,
+                &mut Vec::new());
 
             working_matches.extend(ruledef_matches);
         }
@@ -495,7 +496,8 @@ fn match_with_ruledef_map<'src>(
             entry.rule_ref,
             rule,
             walker.clone(),
-            true);
+            true,
+            &mut Vec::new());
             
         matches.extend(rule_matches);
     }
@@ -508,7 +510,8 @@ fn match_with_ruledef<'src>(
     defs: &asm::ItemDefs,
     ruledef_ref: util::ItemRef<asm::Ruledef>,
     walker: &mut syntax::Walker<'src>,
-    needs_consume_all_tokens: bool)
+    needs_consume_all_tokens: bool,
+    nesting: &mut NestingStack)
     -> WorkingMatches<'src>
 {
     let mut matches = WorkingMatches::new();
@@ -525,7 +528,8 @@ fn match_with_ruledef<'src>(
             rule_ref,
             rule,
             walker.clone(),
-            needs_consume_all_tokens);
+            needs_consume_all_tokens,
+            nesting);
             
         matches.extend(rule_matches);
     }
@@ -540,7 +544,8 @@ fn begin_match_with_rule<'src>(
     rule_ref: util::ItemRef<asm::Rule>,
     rule: &asm::Rule,
     mut walker: syntax::Walker<'src>,
-    needs_consume_all_tokens: bool)
+    needs_consume_all_tokens: bool,
+    nesting: &mut NestingStack)
     -> WorkingMatches<'src>
 {
     match_with_rule(
@@ -549,6 +554,7 @@ fn begin_match_with_rule<'src>(
         &mut walker,
         needs_consume_all_tokens,
         0,
+        nesting,
         &mut InstructionMatch {
             ruledef_ref,
             rule_ref,
@@ -561,12 +567,20 @@ fn begin_match_with_rule<'src>(
 }
 
 
+/// The subruledef invocations currently being matched, as
+/// (ruledef index, cursor index, cursor limit). Re-entering a
+/// subruledef with the same walker state could only repeat itself
+/// forever (a left-recursive set of rules), so it yields no match.
+type NestingStack = Vec<(usize, usize, usize)>;
+
+
 fn match_with_rule<'src>(
     defs: &asm::ItemDefs,
     rule: &asm::Rule,
     walker: &mut syntax::Walker<'src>,
     needs_consume_all_tokens: bool,
     at_pattern_part: usize,
+    nesting: &mut NestingStack,
     match_so_far: &mut InstructionMatch)
     -> WorkingMatches<'src>
 {
@@ -617,6 +631,7 @@ fn match_with_rule<'src>(
                                     needs_consume_all_tokens,
                                     part_index,
                                     enable_lookahead,
+                                    nesting,
                                     match_so_far.clone()));
                         }
 
@@ -639,6 +654,7 @@ fn match_with_rule<'src>(
                                     needs_consume_all_tokens,
                                     part_index,
                                     enable_lookahead,
+                                    nesting,
                                     match_so_far.clone()));
                         }
 
@@ -667,6 +683,7 @@ fn match_with_expr<'src>(
     needs_consume_all_tokens: bool,
     at_pattern_part: usize,
     enable_lookahead: bool,
+    nesting: &mut NestingStack,
     mut match_so_far: InstructionMatch)
     -> WorkingMatches<'src>
 {
@@ -712,6 +729,7 @@ fn match_with_expr<'src>(
         &mut walker,
         needs_consume_all_tokens,
         at_pattern_part + 1,
+        nesting,
         &mut match_so_far)
 }
 
@@ -724,6 +742,7 @@ fn match_with_nested_ruledef<'src>(
     needs_consume_all_tokens: bool,
     at_pattern_part: usize,
     enable_lookahead: bool,
+    nesting: &mut NestingStack,
     match_so_far: InstructionMatch)
     -> WorkingMatches<'src>
 {
@@ -736,11 +755,30 @@ fn match_with_nested_ruledef<'src>(
             at_pattern_part,
             enable_lookahead,
             &mut walker,
-            |walker| match_with_ruledef(
-                defs,
-                nested_ruledef_ref,
-                walker,
-                false))
+            |walker|
+            {
+                let nesting_key = (
+                    nested_ruledef_ref.0,
+                    walker.get_cursor_index(),
+                    walker.get_cursor_limit());
+
+                if nesting.contains(&nesting_key)
+                {
+                    return vec![];
+                }
+
+                nesting.push(nesting_key);
+
+                let nested_matches = match_with_ruledef(
+                    defs,
+                    nested_ruledef_ref,
+                    walker,
+                    false,
+                    nesting);
+
+                nesting.pop();
+                nested_matches
+            })
         else { return vec![] };
 
     
@@ -777,6 +815,7 @@ fn match_with_nested_ruledef<'src>(
             &mut walker,
             needs_consume_all_tokens,
             at_pattern_part + 1,
+            nesting,
             &mut match_so_far);
             
         matches.extend(resumed_matches);
